@@ -29,6 +29,21 @@ claim("C09", "proof", "Lean 4 theorems (induction over query histories) + model/
       COMMON_NOTE + "float log/ceil/pow of GeometricInterrupts are external and compared to the exact model up to 1e-9 "
       "with a tolerated exponent difference only at exact lattice hits.", "DESIGN.md section 6, C09")
 
+claim("C02", "proof", "Lean 4 theorems about the ghost-cell law and its index bookkeeping + model/code differential correspondence",
+      "The virtual-point law of every local condition class (value, derivative, mixed incl. the infinite branch, curvature, "
+      "periodic, anti-periodic, the three expression targets) and which entries of the padded array a face writes are modelled "
+      "in Lean (Model/BC.lean); theorems prove the defining equation on every face point for arbitrary values (constants, "
+      "tensors, per-face arrays, functions of boundary coordinates and time), any shape, rank and dx != 0, that normal-only "
+      "conditions touch only the normal component, that valid cells, edges and corners are never written, and that the order "
+      "in which faces are processed is irrelevant; the resolution of specification dictionaries (wildcard < axis < side < "
+      "named side, auto_periodic, periodicity consistency, error classes) is modelled in Model/BCParse.lean with precedence "
+      "theorems. The model evaluated over exact rationals is compared with the interpreted setter, field.set_ghost_cells, the "
+      "numba ghost-cell setter (source semantics for all cases, JIT for a subset) on complete padded arrays pre-filled with "
+      "markers, and with BoundariesList.from_data on random and malformed specifications; the defining-equation monitor runs "
+      "on every real array.",
+      COMMON_NOTE + "sympy/numba compilation of expression conditions is external (validated by the correspondence only).",
+      "DESIGN.md section 6, C02")
+
 # properties not (yet) decided by the machinery
 NOT_APPLICABLE = {}
 
